@@ -723,6 +723,18 @@ theorem tables_answer_execL (evs : List Ev) (hf : evs.all flat = true) (hlen : e
   MJ.LocAst.tables_answer_execL evs hf hlen pc e he
 
 open MJ.LocAst in
+/-- the same for the sub-generator that compiles the body of a `{% block %}` (`new_subgenerator`: current
+    line and innermost span carried over, no instruction yet), whatever generators are suspended below it:
+    the per-generator bookkeeping of block bodies is the proved one too -/
+theorem block_body_tables_answer_execL (line : Nat) (stack : List Span) (saved : List (Option Nat))
+    (susp : List (Gen × String)) (done : List (String × Gen))
+    (evs : List Ev) (hf : evs.all flat = true) (hlen : evs.length < 4294967296)
+    (pc : Nat) (e : Em) (he : (execL ⟨line, none, saved⟩ evs).2[pc]? = some e) :
+    ∃ att, processErr (execG ⟨⟨⟨line, stack, Instrs.empty⟩, []⟩, susp, done⟩ evs).cur.cg.instrs pc = .ok att ∧
+      (e.line = none ∨ attachedLine att = e.line) :=
+  MJ.LocAst.tables_answer_execL_from _ _ (rel_sub line stack saved susp done) evs hf hlen pc e he
+
+open MJ.LocAst in
 /-- **The reported line is a line of the failing construct.**  Composition of the code generator theorem
     (`instr_line_in_construct`: every compile arm records its instructions on lines of its own construct),
     the side tables (`line_table_lookup` / `span_table_lookup`, binary search included) and the VM's
